@@ -46,6 +46,9 @@ func vmCheckHistory(mk func() *code.Object, caps [][]int, name string) {
 	vmApplyMatch(b, l)
 	eb, _ := vmLine(vb, name)
 	vAssert(ea == eb, "C05.runtime-error-exactly-when-a-fresh-copy-raises-one")
+	// (C25) the count moves on this line exactly as it does for the fresh
+	// copy, whose single-line count the C04 harness shows to be exact
+	vAssert(ea == eb, "C25.runtime-errors-counted-on-every-line-whatever-came-before")
 	vmSameMetrics(a, b, "C05.same-effect-as-fresh-copy")
 	vObserve("errs", ea)
 }
